@@ -222,7 +222,7 @@ def run(ck, prog, ctx):
                                 bound = x.int_value() if bound is None else min(bound, x.int_value())
                     arith = [a for a in at if a[0] == "op" and a[1].startswith(("Add", "Mul", "Shl"))]
                     ok = bound is not None and bound < (1 << W[t_]) and not arith
-                    via_helper = any(a[0] == "call" and a[3] == b.id and a[1] in prog.bodies and prog.bodies[a[1]].kind in ("Fn", "AssocFn") for a in pvn.of_operand(b, s.rv["op"]))
+                    via_helper = any(a[0] == "call" and a[3] == b.id and a[1] in prog.bodies and prog.bodies[a[1]].kind in ("Fn", "AssocFn") and prog.bodies[a[1]].locals[0]["s"] in W for a in pvn.of_operand(b, s.rv["op"]))
                     if not ok and bound is None and via_helper:
                         ck.undecided("GUARD", "cast/%s/%s->%s" % (b.short, f, t_), "%s: the cast value is computed by a helper whose bound is not recognised" % b.short, where=b.where(s.line))
                         continue
